@@ -78,7 +78,8 @@ def eval_case(desc, ctx):
         cases, problems, nt = su.eval_restart(desc["setup"], d, desc["numrec"])
         return {"ints": cases, "oracle": "; ".join(problems[:3]) or None, "nontrivial": (desc["seed"], "setup") if nt else None,
                 "kind": "setup-restart-" + ("rev" if desc["setup"]["rev"] else "fwd"),
-                "observed": {"frames": desc["setup"]["fsteps"], "numrec": desc["numrec"], "restarts": len(cases) - 1}}
+                "observed": {"frames": desc["setup"]["fsteps"], "numrec": desc["numrec"], "restarts": len(cases) - 1,
+                             "adv": su.ADV[int(desc["setup"].get("adv", 0))]}}
     env, numrec = desc["env"], desc["numrec"]
     cold, files, conf = si.run_forward(d, env, "cold", numrec=numrec)
     runs = [si.enc_run(0, 0, cold)]
